@@ -63,3 +63,28 @@ def run(prog, R):
              "next token after the block statement is " + k if not bad else
              f"`{{ }} {k} ..` in statement position: some outcome leaves {bad[:2]} as the next token instead of {k}: the token after a statement-level block is consumed as part of the same statement (statements merge)")
     R.floor("block statement probes", nb, 80)
+    # ---- C16.5 an assignment statement that has consumed its terminating semicolon ends there: in expr_bp no path
+    # from `p.expect(SEMICOLON)` (statement-level assignment) leads back to the operator loop's `current_op`
+    eb = prog.body("oq3_parser::grammar::expressions::expr_bp")
+    if eb:
+        from kernel import origins
+        exps = [bi for bi, t in eb.calls() if (eb.callee_of(t) or "").endswith("Parser::expect") and any(og[0] == "agg" and og[2] == "SEMICOLON" for og in origins(prog, eb, t["args"][1], max_depth=3))]
+        ops = {bi for bi, t in eb.calls() if (eb.callee_of(t) or "").endswith("::current_op")}
+        succ = eb.succ()
+        bad = []
+        for e in exps:
+            seen, st = set(), list(succ[e])
+            while st:
+                x = st.pop()
+                if x in seen or eb.blocks[x].cleanup:
+                    continue
+                seen.add(x)
+                if x in ops:
+                    bad.append(e)
+                    break
+                st.extend(succ[x])
+        R.ob("C16.5-assignment-ends-at-semicolon", "expr_bp", bool(exps) and not bad, eb.blocks[exps[0]].term["at"] if exps else eb.at,
+             "after the statement-level assignment has consumed `;` control leaves the operator loop" if exps and not bad else
+             f"{len(exps)} `expect(SEMICOLON)` site(s); from {len(bad)} of them control returns to the operator loop: an operator that starts the next statement (`-x;`, `+y;`) is applied to the finished assignment, and the two statements merge into one")
+    else:
+        R.ob("ANCHOR", "expr_bp", False)
